@@ -1,3 +1,177 @@
-From PV Require Import C19.Generated C19.Model.
-Theorem C19_placeholder : True. Proof. exact I. Qed.
-Print Assumptions C19_placeholder.
+(* C19 — Writing then reading a document preserves its content.
+   Property theorems only; each is closed by an exact lemma and followed by Print Assumptions.
+
+   Full statement (kept here as the target): for every document g, every writer configuration
+   and renumbering phi, the graph read back from the written file, restricted to what is
+   reachable from the trailer, is isomorphic (via phi) to g restricted to what is reachable from
+   the trailer, up to the documented normalisations; hence the same page sequence, attributes,
+   info dict.  It is REFUTED for pdfcpu as it is (C19_no_loss_refuted_*: objects referenced only
+   from entries the writer does not list, or only from an undecoded object stream member, are
+   dropped), and proved in the three parts below:
+     (A) what is read back is exactly what the writer emitted, up to phi      [all documents]
+     (B) what the writer emitted is the original object, up to the documented normalisations
+                                                                               [all documents]
+     (C) every reference the writer followed is answered by an emitted object, the writer
+         follows every reference outside the three special dictionaries, so nothing reachable
+         is lost when the special dictionaries hold no reference under an unlisted entry
+                                                                               [..._partial]  *)
+From Coq Require Import List ZArith NArith Bool.
+From PV Require Import C19.Generated C19.Model C19.Spec C19.ProofsClosed C19.ProofsIso C19.ProofsFuel C19.ProofsWitness.
+Import ListNotations.
+
+(* ---------- (A) read (write s) = s up to the renumbering ---------- *)
+(* phi: renumbering; print/parse/wf: C11; enc/dec: C22; layout/locate: C18 (any configuration) *)
+Theorem C19_read_write_table :
+  forall (phi : N -> N), (forall a b, phi a = phi b -> a = b) ->
+  forall (print : obj -> bytes) (parse : bytes -> option obj) (wf : obj -> Prop),
+  (forall o, wf o -> parse (print o) = Some o) ->
+  forall (enc dec : N -> obj -> obj), (forall n o, dec n (enc n o) = o) ->
+  forall (file : Type) (layout : list (N * bytes) -> file) (locate : file -> N -> option bytes),
+  (forall recs n, locate (layout recs) n = assoc recs n) ->
+  forall s, wf_out phi wf enc s ->
+  (forall n, read_file parse dec file locate (write_file phi print enc file layout s) (phi n)
+             = option_map (rename phi) (rfind s n)) /\
+  (forall m, (forall n, In n (dom s) -> phi n <> m) ->
+             read_file parse dec file locate (write_file phi print enc file layout s) m = None).
+Proof.
+  intros phi Hinj print parse wf Hpp enc dec Hde file layout locate Hll s Hwf. split.
+  - exact (read_write_exact phi Hinj print parse wf Hpp enc dec Hde file layout locate Hll s Hwf).
+  - exact (read_write_none phi print parse enc dec file layout locate Hll s).
+Qed.
+Print Assumptions C19_read_write_table.
+
+(* the numbering-free view (every finite unfolding from any object, in particular from the
+   catalog and from the info dict) is the same *)
+Theorem C19_read_write_unfold :
+  forall (phi : N -> N), (forall a b, phi a = phi b -> a = b) ->
+  forall (print : obj -> bytes) (parse : bytes -> option obj) (wf : obj -> Prop),
+  (forall o, wf o -> parse (print o) = Some o) ->
+  forall (enc dec : N -> obj -> obj), (forall n o, dec n (enc n o) = o) ->
+  forall (file : Type) (layout : list (N * bytes) -> file) (locate : file -> N -> option bytes),
+  (forall recs n, locate (layout recs) n = assoc recs n) ->
+  forall s, wf_out phi wf enc s ->
+  forall d o, unfold (read_file parse dec file locate (write_file phi print enc file layout s)) d (rename phi o)
+              = unfold (rfind s) d o.
+Proof. exact read_write_unfold. Qed.
+Print Assumptions C19_read_write_unfold.
+
+(* phi is an isomorphism between the parts reachable from any object *)
+Theorem C19_reachable_isomorphic :
+  forall (phi : N -> N), (forall a b, phi a = phi b -> a = b) ->
+  forall (print : obj -> bytes) (parse : bytes -> option obj) (wf : obj -> Prop),
+  (forall o, wf o -> parse (print o) = Some o) ->
+  forall (enc dec : N -> obj -> obj), (forall n o, dec n (enc n o) = o) ->
+  forall (file : Type) (layout : list (N * bytes) -> file) (locate : file -> N -> option bytes),
+  (forall recs n, locate (layout recs) n = assoc recs n) ->
+  forall s, wf_out phi wf enc s -> forall a,
+  (forall n, reach (rfind s) a n ->
+             reach (read_file parse dec file locate (write_file phi print enc file layout s)) (phi a) (phi n)) /\
+  (forall m, reach (read_file parse dec file locate (write_file phi print enc file layout s)) (phi a) m ->
+             exists n, m = phi n /\ reach (rfind s) a n).
+Proof. exact reach_iso. Qed.
+Print Assumptions C19_reachable_isomorphic.
+
+(* page sequence with effective Resources / MediaBox / CropBox / Rotate and all page entries *)
+Theorem C19_pages_preserved :
+  forall (phi : N -> N), (forall a b, phi a = phi b -> a = b) ->
+  forall (print : obj -> bytes) (parse : bytes -> option obj) (wf : obj -> Prop),
+  (forall o, wf o -> parse (print o) = Some o) ->
+  forall (enc dec : N -> obj -> obj), (forall n o, dec n (enc n o) = o) ->
+  forall (file : Type) (layout : list (N * bytes) -> file) (locate : file -> N -> option bytes),
+  (forall recs n, locate (layout recs) n = assoc recs n) ->
+  forall s, wf_out phi wf enc s -> forall root d d',
+  doc_pages d' (unfold (read_file parse dec file locate (write_file phi print enc file layout s)) d (ORef (phi root)))
+  = doc_pages d' (unfold (rfind s) d (ORef root)).
+Proof. exact read_write_pages. Qed.
+Print Assumptions C19_pages_preserved.
+
+(* ---------- (B) emitted = original up to the documented normalisations ---------- *)
+Theorem C19_emitted_is_original_normalised :
+  forall g delv maxd fuel root info s,
+  write_model g maxd fuel delv root info = WOk s ->
+  forall n md o, In (n, (md, o)) s -> norm_of g delv md n o.
+Proof. exact write_model_good. Qed.
+Print Assumptions C19_emitted_is_original_normalised.
+
+(* ---------- (C) which references can dangle ---------- *)
+(* every reference the writer followed is answered (or is a page dict it refuses: not Valid) *)
+Theorem C19_followed_references_survive :
+  forall g maxd fuel delv root info s,
+  write_model g maxd fuel delv root info = WOk s ->
+  forall n r, In (n, r) s -> forall m, In m (followed r) -> In m (dom s) \/ refused g m.
+Proof. exact write_model_closed. Qed.
+Print Assumptions C19_followed_references_survive.
+
+(* outside page writing the writer follows every reference of an object *)
+Theorem C19_generic_follows_all :
+  forall o, wfobj o = true -> followed (MGen false false, o) = refs o.
+Proof. exact wrefs_values_nopages_all. Qed.
+Print Assumptions C19_generic_follows_all.
+
+(* nothing reachable is lost: under the negation of the defect classes (every reference of every
+   emitted object sits where the writer follows it; no unvalidated page dict is referenced) the
+   emitted graph is closed, and its unfoldings are those of the original table with the
+   normalised objects in place *)
+Theorem C19_nothing_lost_partial :
+  forall g maxd fuel delv root info s,
+  write_model g maxd fuel delv root info = WOk s ->
+  (forall n r, In (n, r) s -> incl (refs (snd r)) (followed r)) ->
+  (forall m, ~ refused g m) ->
+  closed s /\
+  forall d o, incl (refs o) (dom s) -> unfold (rfind s) d o = unfold (ntbl g s) d o.
+Proof.
+  intros g maxd fuel delv root info s H Hall Href.
+  assert (Hc : closed s) by exact (followed_all_closed g delv maxd fuel root info s H Hall Href).
+  split; [exact Hc|exact (closed_unfold g s Hc)].
+Qed.
+Print Assumptions C19_nothing_lost_partial.
+
+(* the statement without those hypotheses is false for the writer as it is *)
+Theorem C19_no_loss_refuted_unlisted_catalog_entry :
+  exists g s, write_model g 101 (fuel_for g) false 1%N (Some 5%N) = WOk s /\ dangling s = [6%N].
+Proof.
+  exists (doc [(kDSS, ORef 6)] FValid).
+  destruct (write_model (doc [(kDSS, ORef 6)] FValid) 101 (fuel_for (doc [(kDSS, ORef 6)] FValid)) false 1%N (Some 5%N)) as [s| |] eqn:E.
+  - exists s. split; [reflexivity|]. pose proof witness_unlisted_catalog as W. unfold run in W. rewrite E in W. exact W.
+  - pose proof witness_unlisted_catalog as W. unfold run in W. rewrite E in W. discriminate.
+  - pose proof witness_unlisted_catalog as W. unfold run in W. rewrite E in W. discriminate.
+Qed.
+Print Assumptions C19_no_loss_refuted_unlisted_catalog_entry.
+
+Theorem C19_no_loss_refuted_unlisted_page_entry :
+  dangling_of (write_model doc_page_oi 101 (fuel_for doc_page_oi) false 1%N None) = [6%N].
+Proof. exact witness_unlisted_page. Qed.
+Print Assumptions C19_no_loss_refuted_unlisted_page_entry.
+
+Theorem C19_no_loss_refuted_lazy_objstream_member :
+  dangling_of (run (doc [(kMetadata, ORef 6)] FLazy)) = [7%N].
+Proof. exact witness_lazy. Qed.
+Print Assumptions C19_no_loss_refuted_lazy_objstream_member.
+
+(* ---------- the key lists regenerated from the source ---------- *)
+Theorem C19_listed_keys_cover_iso32000_1 :
+  forallb (fun k => memk k (root_keys_pre ++ root_keys_post)) iso32000_1_catalog_keys = true /\
+  forallb (fun k => memk k page_keys) iso32000_1_page_keys = true /\
+  forallb (fun k => memk k pages_keys) iso32000_1_pages_keys = true.
+Proof. exact listed_keys_cover_iso32000_1. Qed.
+Print Assumptions C19_listed_keys_cover_iso32000_1.
+
+Theorem C19_pdf20_entries_not_listed_refuted :
+  memk kDSS (root_keys_pre ++ root_keys_post) = false /\
+  memk kAF (root_keys_pre ++ root_keys_post) = false /\
+  memk kDPartRoot (root_keys_pre ++ root_keys_post) = false /\
+  memk kOutputIntents page_keys = false /\ memk kAF page_keys = false /\ memk kDPart page_keys = false.
+Proof. exact pdf20_keys_not_listed. Qed.
+Print Assumptions C19_pdf20_entries_not_listed_refuted.
+
+(* ---------- the model never runs out of fuel ---------- *)
+Theorem C19_fuel_suffices :
+  forall g maxd delv root info, write_model g maxd (fuel_for g) delv root info <> WFuel.
+Proof. exact write_model_nofuel. Qed.
+Print Assumptions C19_fuel_suffices.
+
+(* non-vacuity: a document that is written completely; the hypotheses of (C) hold for it *)
+Example C19_nonvacuous :
+  dangling_of (run (doc [(kMetadata, ORef 6)] FValid)) = [] /\
+  survivors (run (doc [(kMetadata, ORef 6)] FValid)) = [5;7;6;2;4;3;1]%N.
+Proof. exact witness_listed. Qed.
